@@ -1,5 +1,8 @@
 import Exetera.Props.C04
 import Exetera.Lemmas.GenKernelsMapValid
+import Exetera.Lemmas.GenKernelsMapValidIndexed
+import Exetera.Lemmas.GenKernelsSafeMap
+import Exetera.Lemmas.MapValidIndexed
 import Exetera.Lemmas.GenKernelsExtents
 import Exetera.Lemmas.GenKernelsSubchunk
 /-!
@@ -65,6 +68,82 @@ theorem gen_ordered_map_valid_partial_spec (src m : List Int) (inv empty : Int) 
     (fun sm k h1' h2' hm hk => by have := (hwin sm k h1' h2' hm hk).1; omega) h1
 
 example : ordered_map_valid_partial.run [20, 30] [2, -1, 1, 2] 0 4 1 [7, 7, 7, 7] (-1) 0 4 = .ok (4, [30, 0, 20, 30]) := rfl
+
+/-! ## ordered_map_valid_indexed_partial (the `while` loop with two `break`s of the streamed indexed-string mapper) -/
+
+/-- transfer by `whileE` simulation: every `.ok` run of the guard / body model `indexedPartial` is a run of the translated kernel on
+    buffers that start with the model's written prefixes; it returns the model's five scalars and buffers that start with the
+    model's new prefixes. Valid map entries of the window must not lie below `mv_start`, the offsets they read not below
+    `indices[i_start]` (the model wraps a negative subscript, the translation rejects it) -/
+theorem gen_indexed_partial_ok (map_ : List Int) (smStart : Int) (smEnd : Nat) (indices : List Int) (iStart iMax : Nat)
+    (values : List Int) (mvStart : Int) (bufI bufV : List Int) (inv : Int) (sm : Nat) (ri rv : List Int) (accum : Int)
+    (r : MapValid.IP Int) (fuel : Nat) (hfuel : smEnd - sm + 1 ≤ fuel)
+    (hIt : bufI.take ri.length = ri) (hVt : bufV.take rv.length = rv)
+    (hpos : ∀ (q : Nat) (k : Int), sm ≤ q → q < smEnd → map_[q]? = some k → k ≠ inv → 0 ≤ k - mvStart)
+    (hvs : ∀ (vo : Int), indices[iStart]? = some vo → ∀ (q : Nat) (k a : Int), sm ≤ q → q < smEnd → map_[q]? = some k → k ≠ inv →
+      indices[(k - mvStart).toNat]? = some a → vo ≤ a)
+    (h : MapValid.indexedPartial map_ smEnd indices iStart iMax values mvStart bufI.length bufV.length inv sm ri rv accum = .ok r) :
+    ∃ bI bV, ordered_map_valid_indexed_partial.run map_ smStart smEnd indices iStart iMax values mvStart bufI bufV inv sm ri.length
+        rv.length accum fuel = .ok ((r.sm : Int), (r.ri.length : Int), (r.rv.length : Int), r.accum, r.need, bI, bV) ∧
+      bI.length = bufI.length ∧ bI.take r.ri.length = r.ri ∧ bV.length = bufV.length ∧ bV.take r.rv.length = r.rv :=
+  ordered_map_valid_indexed_partial_ok map_ smStart smEnd indices iStart iMax values mvStart bufI bufV inv sm ri rv accum r fuel
+    hfuel hIt hVt hpos hvs h
+
+/-- the statement of `MapValid.indexedPartial_spec` (the lemma the streamed indexed mapper's theorems rest on) for the TRANSLATED
+    kernel: called on freshly flushed buffers (`ri = rv = 0`) for the window `[a, b)` of the offsets, it returns normally — no
+    subscript out of range or negative, both loops finish — having consumed the map positions `[sm, r.sm)`; the first `ri` offsets
+    and `rv` bytes of the buffers are the running sums and the concatenation of the entries consumed; when it stops early it says why -/
+theorem gen_indexed_partial_spec (map_ : List Int) (smStart : Int) (sE : Nat) (ix : List Int) (a b : Nat) (values vals : List Int)
+    (mv : Int) (bufI bufV : List Int) (inv : Int) (sm : Nat) (accum : Int) (esL : List (List Int)) (A B : Int) (fuel : Nat)
+    (hfuel : sE - sm + 1 ≤ fuel)
+    (hix : MapValid.WinOK ix values) (hab : a < b) (hb : b < ix.length)
+    (hA : ix[a]? = some A) (hB : ix[b]? = some B) (hvals : vals = slice values A.toNat B.toNat)
+    (hsE : sE ≤ map_.length) (hesLen : sE ≤ esL.length) (hsm : sm ≤ sE) (hcapI : sE - sm ≤ bufI.length)
+    (hwin : ∀ (p : Nat) (k : Int), sm ≤ p → p < sE → map_[p]? = some k → k ≠ inv →
+      (a : Int) ≤ k - mv ∧ k - mv + 1 < ix.length)
+    (hes : ∀ (p : Nat) (k : Int), sm ≤ p → p < sE → map_[p]? = some k →
+      esL[p]? = some (if k = inv then [] else MapValid.wentry ix values (k - mv).toNat)) :
+    ∃ (r : MapValid.IP Int) (bI bV : List Int),
+      ordered_map_valid_indexed_partial.run map_ smStart sE ix a b vals mv bufI bufV inv sm 0 0 accum fuel
+        = .ok ((r.sm : Int), (r.ri.length : Int), (r.rv.length : Int), r.accum, r.need, bI, bV) ∧
+      bI.take r.ri.length = r.ri ∧ bV.take r.rv.length = r.rv ∧
+      sm ≤ r.sm ∧ r.sm ≤ sE ∧ MapValid.PartialPost esL sm accum bufV.length r ∧
+      (r.sm < sE → MapValid.StopReason map_ ix values mv b bufV.length inv r) ∧ (r.sm = sE → r.need = false) := by
+  obtain ⟨r, hr, h1, h2, h3, h4, h5⟩ := MapValid.indexedPartial_spec map_ sE ix a b values vals mv bufI.length bufV.length inv sm
+    accum esL A B hix hab hb hA hB hvals hsE hesLen hsm hcapI hwin hes
+  obtain ⟨bI, bV, hrun, _, hIt, _, hVt⟩ := ordered_map_valid_indexed_partial_ok map_ smStart sE ix a b vals mv bufI bufV inv sm
+    [] [] accum r fuel hfuel (by simp) (by simp)
+    (fun q k hq1 hq2 hm hk => by have := (hwin q k hq1 hq2 hm hk).1; omega)
+    (fun vo hvo q k x hq1 hq2 hm hk hx => by
+      have hw := (hwin q k hq1 hq2 hm hk).1
+      exact hix.mono a (k - mv).toNat vo x (by omega) hvo hx)
+    hr
+  exact ⟨r, bI, bV, hrun, hIt, hVt, h1, h2, h3, h4, h5⟩
+
+example : ordered_map_valid_indexed_partial.run [0, -1, 1] 0 3 [0, 2, 3] 0 2 [7, 8, 9] 0 [0, 0, 0] [0, 0, 0, 0] (-1) 0 0 0 0 4
+    = .ok (3, 3, 3, 3, false, [2, 2, 3], [7, 8, 9, 0]) := by rfl
+
+/-! ## safe_map_values (optional scalar parameter `empty_value`, tested inside the loop) -/
+
+theorem gen_safe_map_values_ok (data m : List Int) (filt : List Bool) (e : Option Int) (r : List Int)
+    (hpos : ∀ (i : Nat) (k : Int), filt[i]? = some true → m[i]? = some k → 0 ≤ k)
+    (h : safeMapValues data m filt e 0 = .ok r) :
+    safe_map_values.run data m filt e = .ok r :=
+  safe_map_values_ok data m filt e r hpos h
+
+/-- the statement of `C04.safe_map_values_rows` for the translated kernel: with a filter of the map's length whose set rows address
+    the source, it returns normally (no subscript out of range or negative), one value per map entry — `data[map[i]]` where the
+    filter is set, the empty value (the caller's, or 0) elsewhere -/
+theorem gen_safe_map_values_rows (data m : List Int) (filt : List Bool) (e : Option Int) (hlen : filt.length = m.length)
+    (hr : ∀ (i : Nat) (k : Int), m[i]? = some k → filt[i]? = some true → 0 ≤ k ∧ k < data.length) :
+    ∃ out, safe_map_values.run data m filt e = .ok out ∧ out.length = m.length ∧
+      ∀ (i : Nat) (k : Int) (b : Bool), m[i]? = some k → filt[i]? = some b →
+        out[i]? = if b then data[k.toNat]? else some (e.getD 0) := by
+  obtain ⟨out, h1, h2, h3⟩ := C04.safe_map_values_rows data m filt e 0 hlen hr
+  exact ⟨out, safe_map_values_ok data m filt e out (fun i k hf hm => (hr i k hm hf).1) h1, h2, h3⟩
+
+example : safe_map_values.run [10, 20, 30] [2, -1, 0] [true, false, true] none = .ok [30, 0, 10] ∧
+    safe_map_values.run [10, 20, 30] [2, -1, 0] [true, false, true] (some 7) = .ok [30, 7, 10] := ⟨rfl, rfl⟩
 
 /-! ## get_valid_value_extents -/
 
